@@ -44,6 +44,11 @@ static const pat_t T[] = {
     {"res_ce_tokens", "HTTP/1.1 200 OK\r\nContent-Length: 0\r\nContent-Encoding: ", "gzip, ", "gzip\r\n\r\n", 1, 1},
     {"res_junk_lines_before_status", "", "junk line %d\r\n", "HTTP/1.1 200 OK\r\nContent-Length: 0\r\n\r\n", 1, 0},
     {"res_body_identity", "HTTP/1.1 200 OK\r\nConnection: close\r\n\r\n", "0123456789abcdef", "", 1, 0},
+    {"req_multipart_part_headers_distinct", "POST / HTTP/1.1\r\nHost: h\r\nContent-Type: multipart/form-data; boundary=BB\r\nTransfer-Encoding: chunked\r\n\r\n6\r\n--BB\r\n\r\n", "b\r\nH%05d: v\r\n\r\n", "37\r\nContent-Disposition: form-data; name=\"f\"\r\n\r\nv\r\n--BB--\r\n\r\n0\r\n\r\n", 0, 0},
+    {"req_multipart_part_headers_repeated", "POST / HTTP/1.1\r\nHost: h\r\nContent-Type: multipart/form-data; boundary=BB\r\nTransfer-Encoding: chunked\r\n\r\n6\r\n--BB\r\n\r\n", "b\r\nA: v%05d\r\n\r\n", "37\r\nContent-Disposition: form-data; name=\"f\"\r\n\r\nv\r\n--BB--\r\n\r\n0\r\n\r\n", 0, 0},
+    {"req_multipart_part_folded", "POST / HTTP/1.1\r\nHost: h\r\nContent-Type: multipart/form-data; boundary=BB\r\nTransfer-Encoding: chunked\r\n\r\nc\r\n--BB\r\nA: b\r\n\r\n", "9\r\n c%05d\r\n\r\n", "37\r\nContent-Disposition: form-data; name=\"f\"\r\n\r\nv\r\n--BB--\r\n\r\n0\r\n\r\n", 0, 0},
+    {"res_trailer_lines", "HTTP/1.1 200 OK\r\nTransfer-Encoding: chunked\r\n\r\n1\r\nx\r\n0\r\n", "T: v%d\r\n", "\r\n", 1, 0},
+    {"req_trailer_lines", "POST / HTTP/1.1\r\nHost: h\r\nTransfer-Encoding: chunked\r\n\r\n1\r\nx\r\n0\r\n", "T: v%d\r\n", "\r\n", 0, 0},
 };
 #define NT (sizeof T / sizeof *T)
 static char *big; static size_t bigcap = 1 << 24;
@@ -60,7 +65,9 @@ static void run(const pat_t *p, int k, int bytewise, unsigned long long *total, 
     n += (size_t) sprintf(big + n, "%s", p->pre);
     for (int i = 0; i < k && n + 256 < bigcap; i++) {
         if (!strcmp(p->unit, "%c")) { big[n++] = 0; continue; }           /* the NUL unit */
-        n += (size_t) sprintf(big + n, p->unit, i, i);                       /* units use zero, one or two %d */
+        /* units use zero, one or two %d; a fixed-width counter wraps so that the unit keeps its length (chunk sizes are literal) */
+        int a1 = strstr(p->unit, "%02d") ? i % 100 : strstr(p->unit, "%03d") ? i % 1000 : strstr(p->unit, "%05d") ? i % 100000 : i;
+        n += (size_t) sprintf(big + n, p->unit, a1, i);
     }
     n += (size_t) sprintf(big + n, "%s", p->suf);
     if (p->resp) { const char *rq = "GET / HTTP/1.1\r\nHost: h\r\n\r\n"; htp_connp_req_data(g, NULL, rq, strlen(rq)); }
